@@ -888,6 +888,7 @@ class EditableParentImpl(BaseParentImpl):
 
     def new_excel_range(self, name, path, range_, sheet, keyids, loadpath):
 
+        self._check_ref_name(name)
         from modelx.io.excelio import ExcelRange
 
         cargs = {"range_": range_,
@@ -911,6 +912,7 @@ class EditableParentImpl(BaseParentImpl):
 
     def new_pandas(self, name, path, data, file_type, sheet):
 
+        self._check_ref_name(name)
         from modelx.io.pandasio import PandasData
         spec = self.system.iomanager.new_spec(
             PandasData,
@@ -929,6 +931,7 @@ class EditableParentImpl(BaseParentImpl):
 
     def new_module(self, name, path, module):
 
+        self._check_ref_name(name)
         from modelx.io.moduleio import ModuleData
 
         spec = self.system.iomanager.new_spec(
@@ -946,6 +949,11 @@ class EditableParentImpl(BaseParentImpl):
             raise KeyError("cannot assign '%s'" % name)
 
         return spec.value
+
+    def _check_ref_name(self, name):
+        # Assignment to a cells name sets the cells' value, not a reference
+        if name in getattr(self, "cells", ()):
+            raise KeyError("cannot assign '%s'" % name)
 
     def set_attr(self, name, value, refmode):
         raise NotImplementedError
